@@ -214,7 +214,12 @@ pub mod raw {
                     return Err(TryReserveError::AllocError { layout });
                 }
                 #[cfg(kani)]
-                kani::assume(false);
+                {
+                    // No harness asks the crate for more than 7 entries through an infallible
+                    // path: reaching this is a harness bound being crossed, reported as such.
+                    kani::assert(false, "[CUT] hashbrown model: an infallible allocation of more than 8 buckets was requested (outside the model bound)");
+                    kani::assume(false);
+                }
                 panic!("hashbrown model: more than MAX_BUCKETS buckets requested");
             }
             let slots = Box::into_raw(Box::new([ptr::null_mut::<T>(); MAX_BUCKETS]));
@@ -440,6 +445,146 @@ pub mod raw {
                 }
                 self.slots = ptr::null_mut();
                 self.buckets = 0;
+            }
+        }
+    }
+
+    impl<T> Default for RawTable<T> {
+        fn default() -> Self {
+            Self::new()
+        }
+    }
+
+    // Further parts of the RawTable API that a change to lru-mem may plausibly start to use
+    // (same contract: every rebuild moves all entries to new bucket objects).
+    impl<T> RawTable<T> {
+        /// Bucket of the slot holding a value, by index order (for `iter`).
+        fn bucket_at(&self, i: usize) -> Bucket<T> {
+            Bucket { ptr: unsafe { self.val(i) } }
+        }
+
+        pub fn insert_no_grow(&mut self, hash: u64, value: T) -> Bucket<T> {
+            match self.try_insert_no_grow(hash, value) {
+                Ok(b) => b,
+                Err(_) => panic!("hashbrown model: insert_no_grow on a full table"),
+            }
+        }
+
+        fn rebuild(&mut self, capacity: usize, fallible: bool) -> Result<(), TryReserveError> {
+            let mut new = Self::alloc_with(capacity, fallible)?;
+            macro_rules! mv {
+                ($i:expr) => {
+                    if $i < self.buckets as usize && self.is_full($i) {
+                        let j = (!new.full).trailing_zeros() as usize;
+                        unsafe {
+                            ptr::copy_nonoverlapping(self.val($i), new.val(j), 1);
+                        }
+                        new.full |= 1u8 << j;
+                        new.items += 1;
+                        new.growth_left -= 1;
+                        new.hashes = (new.hashes & !(0xffu64 << (8 * j))) | (self.hash_at($i) << (8 * j));
+                    }
+                };
+            }
+            each_slot!(mv);
+            self.items = 0;
+            self.full = 0;
+            mem::swap(self, &mut new);
+            Ok(())
+        }
+
+        pub fn reserve(&mut self, additional: usize, _hasher: impl Fn(&T) -> u64) {
+            if additional > self.growth_left as usize {
+                let want = (self.items as usize + additional).max(self.capacity() + 1);
+                let _ = self.rebuild(want, false);
+            }
+        }
+
+        pub fn try_reserve(&mut self, additional: usize, _hasher: impl Fn(&T) -> u64) -> Result<(), TryReserveError> {
+            if additional > self.growth_left as usize {
+                let want = match (self.items as usize).checked_add(additional) {
+                    Some(w) => w.max(self.capacity() + 1),
+                    None => return Err(TryReserveError::CapacityOverflow),
+                };
+                self.rebuild(want, true)
+            } else {
+                Ok(())
+            }
+        }
+
+        pub fn shrink_to(&mut self, min_size: usize, _hasher: impl Fn(&T) -> u64) {
+            let min_size = min_size.max(self.items as usize);
+            if min_size == 0 {
+                let mut old = mem::replace(self, Self::new());
+                old.free();
+                return;
+            }
+            let want_buckets = capacity_to_buckets(min_size).unwrap_or(usize::MAX);
+            if want_buckets < self.buckets as usize {
+                let _ = self.rebuild(min_size, false);
+            }
+        }
+
+        pub fn clear(&mut self) {
+            if mem::needs_drop::<T>() {
+                while let Some(v) = self.take_next() {
+                    drop(v);
+                }
+            }
+            self.clear_no_drop();
+        }
+
+        pub unsafe fn erase(&mut self, item: Bucket<T>) {
+            let (v, _) = self.remove(item);
+            drop(v);
+        }
+
+        pub unsafe fn remove(&mut self, item: Bucket<T>) -> (T, ()) {
+            let mut idx = MAX_BUCKETS;
+            macro_rules! fi {
+                ($i:expr) => {
+                    if $i < self.buckets as usize && self.val($i) == item.ptr {
+                        idx = $i;
+                    }
+                };
+            }
+            each_slot!(fi);
+            if idx == MAX_BUCKETS || !self.is_full(idx) {
+                panic!("hashbrown model: remove of a bucket that holds no value");
+            }
+            self.erase_index(idx);
+            (ptr::read(item.ptr), ())
+        }
+
+        pub unsafe fn iter(&self) -> RawIter<T> {
+            let mut out = [ptr::null_mut::<T>(); MAX_BUCKETS];
+            let mut n = 0;
+            macro_rules! co {
+                ($i:expr) => {
+                    if $i < self.buckets as usize && self.is_full($i) {
+                        out[n] = self.val($i);
+                        n += 1;
+                    }
+                };
+            }
+            each_slot!(co);
+            RawIter { items: out, n, i: 0 }
+        }
+    }
+
+    pub struct RawIter<T> {
+        items: [*mut T; MAX_BUCKETS],
+        n: usize,
+        i: usize,
+    }
+    impl<T> Iterator for RawIter<T> {
+        type Item = Bucket<T>;
+        fn next(&mut self) -> Option<Bucket<T>> {
+            if self.i < self.n {
+                self.i += 1;
+                Some(Bucket { ptr: self.items[self.i - 1] })
+            } else {
+                None
             }
         }
     }
